@@ -308,9 +308,13 @@ var seedTexts = []string{
 	`x > 1 and x < 5 or name =~ "^a" and d >= #20200101`,
 	`-123.456e-7`,
 	`Name { X: 1, "y z": 2, F() { return .X } }`,
+	`function () { f = function () { return 1, 2, 3 }; a, b, c = f(); x, y = ob.Split(2); return a + b + c + x + y }`,
+	`class { F() { a, b = .G(); return a $ b } G() { return 1, 2 } }`,
+	`function (ob) { for m, v in ob { b = {|x, y| p, q = x(y); p + q }; try b(m, v) catch (e, "x") { r, s = g() } } }`,
+	`function () { a, b.c = f(); a, b[0] = f(); a, b, .c = f(); a, (b) = f(); a, B = f(); a, b += f(); a, b = 5 }`,
 }
 
-var mutTokens = []string{"'': ", "\"\": 1", "(", ")", "{", "}", "[", "]", "\"", "'", "`", "\\", "#", "/*", "*/", "//", "\n", "\r\n", "\x00", "\xff",
+var mutTokens = []string{"'': ", "\"\": 1", ", b.c = f()", "a, b[0] = f();", ", .c = f()", "a, b = ", ", this = f()", "(", ")", "{", "}", "[", "]", "\"", "'", "`", "\\", "#", "/*", "*/", "//", "\n", "\r\n", "\x00", "\xff",
 	"0x", "1e", "1_", "_1", "..", "::", ".5.", "9999999999999999999999", "function", "class", "catch", "switch", "case", "|", "||", "@", "? :", "++", "--", "=", "$=", "\x80\x81", "é", "\t"}
 
 func mutate(t *rapid.T, src string) string {
@@ -720,6 +724,91 @@ func TestC32(t *testing.T) {
 			return
 		}
 		judge(t, class, mutate(t, src))
+	})
+
+	// constructs: structured statements / declarations assembled from valid and
+	// invalid alternatives in every position (the places where the parser does
+	// type assertions on parsed sub-expressions or expects a particular node:
+	// multiple assignment targets, for-in / catch / block / function
+	// parameters, class member names, lvalues of = ++ +=, case / in lists,
+	// object constant members), in several contexts.
+	rt.Check(t, rec, "constructs", 6000, 80000, func(t *rapid.T) {
+		n := 0
+		pick := func(xs ...string) string { n++; return gen.Pick(t, fmt.Sprint("p", n), xs) }
+		target := func() string {
+			return pick("a", "b", "c", "x", "b.c", "b[0]", "b[1 .. 2]", ".c", "G", "5", `"s"`, "this", "super", "(a)", "f()", "#(1)", "a b", "-a", "a.b.c", "b[i]", "{ a }", "_", "a?", "@a", "")
+		}
+		local := func() string { return pick("a", "b", "c", "x", "y") }
+		rhs := func() string {
+			return pick("f()", "f()", "ob.M(1)", "g(a, b)", "x", "5", "", "f", "f() + 1", "(f())", "function () { return 1, 2 }()", "{ 1 }()", "f() g()", "new C()", "x.y")
+		}
+		var body, family string
+		switch gen.Uniform(t, "family", 10) {
+		case 0, 1:
+			family = "multi_assign"
+			k := 2 + gen.Uniform(t, "k", 3)
+			var ts []string
+			allLocal := gen.Chance(t, "valid", 35)
+			for i := 0; i < k; i++ {
+				if allLocal {
+					ts = append(ts, local())
+				} else {
+					ts = append(ts, target())
+				}
+			}
+			op := pick("=", "=", "=", "+=", "$=", "is", "==", "")
+			body = strings.Join(ts, pick(", ", ", ", ",", " , ", " ")) + " " + op + " " + rhs()
+			if gen.Chance(t, "more", 30) {
+				body = pick("x = 1; ", "f = function () { return 1, 2 }\n", "if a ") + body + pick("", "; return a", "\nb", " + 1")
+			}
+		case 2:
+			family = "for_in"
+			body = "for " + pick("", "(") + target() + pick("", ", "+target(), ", "+local()) + " in " + pick("ob", "0..n", "..n", "", "#(1, 2)", "a = b", "f()") + pick("", ")") + " " + pick("{ s += 1 }", "s += 1", "{ }", "")
+		case 3:
+			family = "catch"
+			body = "try " + pick("f()", "{ f() }", "", "throw 1") + " catch " + pick("", "("+target()+")", "("+target()+", "+pick(`"x"`, "5", "p", `"*a|b"`, "")+")", "(e, \"x\", 1)", "()") + " " + pick("{ r = 1 }", "r = 1", "", "{")
+		case 4:
+			family = "block_params"
+			body = "b = {|" + pick(target(), local()+", "+target(), "@"+local(), "@a, b", "a, a", "a = 1", "", "a,", ".a", "_x") + "| " + pick("a", "return a", "break", "") + " }" + pick("", "; b(1)", "()")
+		case 5:
+			family = "function_params"
+			body = "g = function (" + pick(target(), local()+", "+target(), "@a", "@a, b", "a = 1", "a = f()", "a = b", "a = 1, b", ".x", "a, a", "_a", "a = #(1)", "a = -1", "a = 'x'", "a: string", "a:") + ") " + pick("{ a }", "{ }", "", "{ return 1, 2 }", "{ return 1, }") + pick("", "; g(1)")
+		case 6:
+			family = "lvalues"
+			body = pick("++", "--", "", "") + target() + pick("++", "--", " = 1", " += 1", " $= 's'", " = b = c", " <<= 1", " |= 1", "", " = ") + pick("", "; a")
+		case 7:
+			family = "class_members"
+			m := func() string {
+				return pick("X", "x", `"s"`, "'q'", "5", "-1", "#20200101", "true", "#sym", "", "a.b", "X()", "New", "Default", "Getter_X", "getter_x", "super", "this", "1.5", "X:") + pick(": ", ":", " : ", "", " ") +
+					pick("1", `"v"`, "function () { }", "class { }", "#(1)", "", "x", "-", "f()", "function (.a) { }", "function () { super.X() }", "function () { .x = 1; return this }")
+			}
+			body = pick("class", "class : Base", "Base", "class : 5", "class :") + " { " + m() + pick(" ", ", ", "; ", "\n") + m() + pick("", " F() { return .x } ", " New(.a) { super(1) } ", " F() { a, b.c = f() } ", " F() { a, b = .G() } ") + " }"
+		case 8:
+			family = "switch_case_in"
+			body = pick("switch a {", "switch {", "switch (a) {", "switch a") + " " + pick("case 1: x = 1", "case 1, 2: x", "case: x", "case 1 x", "default: x", "case a, : x", "case 1: case 2:", "") + " " + pick("default: y", "default y", "", "case 1:") + pick(" }", "", " } }") + pick("", "; r = a in (1, 2)", "; r = a in (1, 2", "; r = a in b", "; r = a not in (1)", "; r = a in ()")
+		default:
+			family = "object_constants"
+			body = "x = " + pick("#(", "#{", "#[", "[", "Object(") + pick("1, 2", "a: 1", "a: b: 1", "1:", "a:", ": 1", "-1: 2", "a: -", "#20200101: 1", "a: #(b: [c: 1])", "'s': x", "1, a: 2, 3", "a: function () { }", "a: class { }", "f()", "1 2") + pick(")", "}", "]", "", "))")
+		}
+		var src string
+		switch gen.Uniform(t, "ctx", 6) {
+		case 0:
+			src = "function (ob, n) { " + body + " }"
+		case 1:
+			src = "function (ob, n) {\n" + body + "\n}"
+		case 2:
+			src = "function () { b = { " + body + " }; b() }"
+		case 3:
+			src = "class { F(ob, n) { " + body + " } }"
+		case 4:
+			src = "function () { if x { for i in ..3 { try { " + body + " } catch (e) { } } } }"
+		default:
+			src = "function () { g = function () { " + body + " }; g() }"
+		}
+		if family == "class_members" && gen.Chance(t, "bare", 60) {
+			src = body
+		}
+		judge(t, "construct_"+family, src)
 	})
 
 	rt.Check(t, rec, "faithful", 4000, 60000, func(t *rapid.T) {
